@@ -129,5 +129,100 @@ def array_obligations(ctx):
     return obls
 
 
+# ---- list shapes: sequence of blocks (type, rep, has_delta); rep 0 = plain value, rep >= 1 = range block
+def P(t): return (t, 0, 0)
+def R(t, k, delta=0): return (t, k, delta)
+
+
+def shape_key(sh):
+    return "_".join(("%s" % t) if k == 0 else "%d%s%s" % (k, "d" if d else "x", t) for t, k, d in sh) or "empty"
+
+
+def shape_len(sh):
+    return sum(k or 1 for _, k, _ in sh)
+
+
+QUICK_SHAPES = [
+    [], [P("i")], [R("i", 3)], [R("i", 3, 1)], [R("h", 3, 1)], [R("c", 2, 1), P("T")], [R("T", 3)],
+    [R("F", 2), P("i")], [P("i"), R("i", 2)], [R("h", 2), P("h")], [R("i", 1)], [R("i", 1, 1)],
+    [R("i", 2, 1), R("c", 1)], [P("T"), R("i", 2, 1)], [P("h"), P("i"), P("F")], [R("c", 3)], [R("h", 2, 1), P("h")],
+]
+
+
+def list_shapes(tier):
+    if tier == "quick":
+        return QUICK_SHAPES
+    kinds = {1: [], 2: [], 3: []}
+    for t in "ihT":
+        kinds[1] += [P(t), R(t, 1)] + ([R(t, 1, 1)] if t != "T" else [])
+        for k in (2, 3):
+            kinds[k] += [R(t, k)] + ([R(t, k, 1)] if t != "T" else [])
+    out = [[]]
+    def rec(prefix, left):
+        for m in (1, 2, 3):
+            if m > left:
+                break
+            for b in kinds[m]:
+                sh = prefix + [b]
+                out.append(sh)
+                rec(sh, left - m)
+    rec([], 3)
+    seen = set(shape_key(s) for s in out)
+    for sh in QUICK_SHAPES:          # the c / F shapes of the quick tier
+        if shape_key(sh) not in seen:
+            out.append(sh)
+    return out
+
+
+def valueless_before_payload(sh):
+    seen_valueless = False
+    for t, _, _ in sh:
+        if t in "TFNI":
+            seen_valueless = True
+        elif seen_valueless:
+            return True
+    return False
+
+
+# rtosc_avmessage mis-indexed its value array when T/F/N/I preceded payload tags (repaired in f47a4b9, property C01);
+# as instructed such shapes are left out of the avmessage obligations. Set to True to include them.
+AVMSG_VALUELESS_BEFORE_PAYLOAD = False
+
+
+def list_obligations(ctx):
+    inc = [os.path.join(ctx.repo, "src/cpp")]
+    S = "harness/C16/list.c"
+    obls = []
+    bound = "shape-bounded: <=3 expanded values, range blocks with rep_num<=3, types c i h (with/without delta) T F (without); start values, deltas and the third list symbolic"
+    for i, sh in enumerate(list_shapes(ctx.tier)):
+        key = shape_key(sh)
+        blocks = "".join("{%d,%d,%d}," % (ord(t), k, d) for t, k, d in sh)
+        case = {"blocks": [list(b) for b in sh]}
+        for xrot in ([0, 1] if len(set(t for t, _, _ in sh)) > 1 else [0]):
+            d = srcdefs(ctx); d.update({"H_LIST_CMP": None, "LS_BLOCKS": blocks, "LS_XROT": str(xrot)})
+            obls.append(Obl("C16.list_cmp.%s%s" % (key, ".xrot" if xrot else ""), PID, S, entry="h_list_cmp", defines=d,
+                            includes=inc, mode="bounded", bound=bound, cbmc=["--unwind", "8", "--unwinding-assertions"],
+                            timeout=LIST_TIMEOUT, case=dict(case, third_list_types_rotated=xrot)))
+        d = srcdefs(ctx); d.update({"H_LIST_ITR": None, "LS_BLOCKS": blocks})
+        obls.append(Obl("C16.list_itr.%s" % key, PID, S, entry="h_list_itr", defines=d, includes=inc, mode="bounded",
+                        bound=bound, cbmc=["--unwind", "8", "--unwinding-assertions"], timeout=LIST_TIMEOUT, case=case))
+        if shape_len(sh) > 0 and (AVMSG_VALUELESS_BEFORE_PAYLOAD or not valueless_before_payload(sh)):
+            d = srcdefs(ctx, avmessage=True); d.update({"H_LIST_AVMSG": None, "LS_BLOCKS": blocks})
+            obls.append(Obl("C16.list_avmsg.%s" % key, PID, S, entry="h_list_avmsg", defines=d, includes=inc,
+                            mode="bounded", bound=bound, cbmc=["--unwind", "50", "--unwinding-assertions"],
+                            timeout=LIST_TIMEOUT, case=case))
+    sh = [R("i", 2, 1), P("h")]
+    blocks = "".join("{%d,%d,%d}," % (ord(t), k, d) for t, k, d in sh)
+    for ent, extra, uw in (("h_list_cmp", {"H_LIST_CMP": None}, "8"), ("h_list_itr", {"H_LIST_ITR": None}, "8"),
+                           ("h_list_avmsg", {"H_LIST_AVMSG": None}, "50")):
+        d = srcdefs(ctx, avmessage=(ent == "h_list_avmsg")); d.update(extra); d["LS_BLOCKS"] = blocks
+        obls.append(Obl("C16.canary.%s" % ent[2:], PID, S, entry=ent, defines=d, includes=inc, mode="bounded", bound=bound,
+                        cbmc=["--unwind", uw, "--unwinding-assertions"], canary=True, timeout=LIST_TIMEOUT))
+    return obls
+
+
+LIST_TIMEOUT = 100
+
+
 def obligations(ctx):
-    return scalar_obligations(ctx) + strblob_obligations(ctx) + array_obligations(ctx)
+    return scalar_obligations(ctx) + strblob_obligations(ctx) + array_obligations(ctx) + list_obligations(ctx)
